@@ -216,6 +216,32 @@ def native_replay(module_name, unit_name, model):
     return out
 
 
+def native_replay_isolated(module_name, unit_name, model):
+    """native_replay in a forked child: a counter-model is replayed on a process image in which no earlier native run
+    has left anything behind (class-level tables edited in place, patched methods, caches) -- and leaves nothing behind"""
+    import pickle
+    r, w = os.pipe()
+    pid = os.fork()
+    if pid == 0:
+        try:
+            os.close(r)
+            try:
+                out = native_replay(module_name, unit_name, model)
+            except BaseException as e:
+                out = {"results": [], "exception": "replay crashed: %r" % (e,), "assume_failed": False, "notes": {}}
+            with os.fdopen(w, "wb") as f:
+                pickle.dump(out, f)
+        finally:
+            os._exit(0)
+    os.close(w)
+    with os.fdopen(r, "rb") as f:
+        data = f.read()
+    os.waitpid(pid, 0)
+    if not data:
+        return {"results": [], "exception": "replay child died", "assume_failed": False, "notes": {}}
+    return pickle.loads(data)
+
+
 def _sample_int(rnd, lo, hi):
     if lo is not None and hi is not None and hi - lo <= 64:
         return rnd.randint(lo, hi)
@@ -345,7 +371,7 @@ def _worker(args):
     for ob in r.obligations:
         if ob.status == "refuted":
             try:
-                rep = native_replay(module_name, unit_name, ob.model)
+                rep = native_replay_isolated(module_name, unit_name, ob.model)
                 ob.replay = {"confirmed": confirm(ob.name, rep), **rep}
             except BaseException as e:
                 ob.replay = {"confirmed": False, "error": repr(e)[:500]}
